@@ -2,9 +2,9 @@
 # usage: ./sweep.sh <tier> <seeds...>   -- runs every check for each seed, prints one line per run
 T=$1; shift
 for s in "$@"; do
-  for p in C01 C02 C03 C04 C05 C06 C07 C08 C09 C10 C11 C12 C13 C14 C15 C16 C17 C18 C19 C20; do
-    VERIF_SEED=$s ./check $p $T > sweep_$p_$s.out 2>&1; rc=$?
-    echo "seed=$s $p $T rc=$rc $(grep -c '^VIOLATION' sweep_$p_$s.out) $(grep '^\[' sweep_$p_$s.out | head -1)"
-    [ $rc -ne 0 ] && grep -v '^   ' sweep_$p_$s.out | cut -c1-600 | tail -8
+  for p in ${PROPS:-C01 C02 C03 C04 C05 C06 C07 C08 C09 C10 C11 C12 C13 C14 C15 C16 C17 C18 C19 C20}; do
+    VERIF_SEED=$s ./check $p $T > sweep_${p}_$s.out 2>&1; rc=$?
+    echo "seed=$s $p $T rc=$rc $(grep -c '^VIOLATION' sweep_${p}_$s.out) $(grep '^\[' sweep_${p}_$s.out | head -1)"
+    [ $rc -ne 0 ] && grep -v '^   ' sweep_${p}_$s.out | cut -c1-600 | tail -8
   done
 done
